@@ -22,8 +22,29 @@ ASSUMPTIONS = [
 EXHAUSTIVE = False
 
 
+_HELD = {}
+
+
+def recheck_held(ctx):
+    """Tokens delivered by an earlier, unrelated tokenizer are still exactly what they were (nothing is shared between instances)."""
+    h = _HELD.get("prev")
+    if not h:
+        return
+    frames, tokens, snap, case = h
+    ctx.count("held_results_rechecked")
+    same = len(tokens) == len(snap) and all(
+        t[1:] == b[1:] and len(t[0]) == len(b[0]) and all(x is y for x, y in zip(t[0], b[0])) for t, b in zip(tokens, snap))
+    if not same:
+        ctx.violation("delivered-token-altered-by-a-later-run", {"case": case, "tokens_then": [(b[1], b[2], len(b[0])) for b in snap][:10],
+                                                                "tokens_now": [(t[1], t[2], len(t[0])) for t in tokens][:10]})
+    _HELD["prev"] = None
+
+
 def check_case(ctx, v, params, kind, delivery, origin):
     r = T.execute(ctx, v, params, kind, delivery)
+    recheck_held(ctx)
+    if r is not None and r[1]:
+        _HELD["prev"] = (r[0], r[1], [(list(t[0]), t[1], t[2]) for t in r[1]], T.case_of(v, params, kind, delivery))
     if r is None:
         ctx.case((v, params), True)
         return
@@ -60,6 +81,8 @@ def inconclusive(merged, tier):
     out = []
     if c.get("tokens_observed", 0) == 0:
         out.append("no token was ever observed")
+    if c.get("held_results_rechecked", 0) == 0:
+        out.append("held results were never re-checked")
     for k in ("cases_exhaustive", "cases_exhaustive_init", "cases_recipe", "cases_random", "cases_reuse", "cases_offgrid"):
         if c.get(k, 0) == 0:
             out.append(f"workload class {k} never ran")
